@@ -3,6 +3,7 @@ import os, importlib.util
 
 ID = "C11"
 PROPS = "Props/C11.v"
+COQ_TIMEOUT = 5400   # Coq build of this property incl. rebuilt dependencies; generous: on a loaded machine a rebuild after an upstream edit took > 1500 s
 GEN = ["sm4tables", "sm4consts"]
 LEGS = [{"driver": "c11", "runner": ("sm4modes", "Extract/ExtractSM4Modes.v", "Sm4modes_model")}]
 
